@@ -101,9 +101,15 @@ func keyNeedles(name string, key interface{}) []needle {
 		}
 	case *rsa.PrivateKey:
 		encs("rsa-d", k.D.Bytes())
+		add("rsa-d/decimal", []byte(k.D.String()))
 		for i, p := range k.Primes {
 			encs(fmt.Sprintf("rsa-prime%d", i), p.Bytes())
+			add(fmt.Sprintf("rsa-prime%d/decimal", i), []byte(p.String()))
 		}
+	case ed25519.PrivateKey:
+		encs("ed25519-seed", k.Seed())
+		// Go's %v of a byte slice: "[1 2 3 ...]"
+		add("ed25519-seed/go-%v", []byte(strings.Trim(fmt.Sprint([]byte(k.Seed())), "[]")))
 	}
 	return out
 }
@@ -129,6 +135,16 @@ func c03Body(s *simkit.Sim, rc *simkit.RunCtx) {
 	if err != nil {
 		s.Fail("C03.harness", "start", "%v", err)
 		return
+	}
+	// keys that an operator imported (or that an older version left behind): RSA and Ed25519 files in the key store's
+	// directory are picked up when the node starts
+	legacyDir := filepath.Join(rc.Dir, "nodeb", "crypto")
+	_ = os.MkdirAll(legacyDir, 0o700)
+	_, edLegacy, _ := ed25519.GenerateKey(rand.Reader)
+	for name, key := range map[string]interface{}{"legacy-rsa": c03LegacyRSAKey(), "legacy-ed25519": edLegacy} {
+		if der, err := x509.MarshalPKCS8PrivateKey(key); err == nil {
+			_ = os.WriteFile(filepath.Join(legacyDir, name+"_private.pem"), pem.EncodeToMemory(&pem.Block{Type: "PRIVATE KEY", Bytes: der}), 0o600)
+		}
 	}
 	b, err := w.StartNode(world.NodeOpts{Name: "nodeb", DIDMethods: methods, Web: true, SimSQL: true, SimSession: true, Env: debugEnv})
 	if err != nil {
@@ -243,12 +259,15 @@ func c03Body(s *simkit.Sim, rc *simkit.RunCtx) {
 		}
 		privJWK = jwkMap(privRaw)
 		hostile := map[string]interface{}{"x": "y", "typ": "evil", "cty": "a/b"}
-		switch s.D.Decide("jws-headers", 3) {
+		switch s.D.Decide("jws-headers", 4) {
 		case 1:
 			hostile["jwk"] = pubJWK
 		case 2:
 			hostile["b64"] = true
 			hostile["x5c"] = []string{"AAAA"}
+		case 3:
+			// a kid of the caller's choosing: the signature is still made with, and names, the requested key
+			hostile["kid"] = []string{"legacy-rsa", "did:web:someone-else.sim#key-1", kid + "x"}[s.D.Decide("other-kid", 3)]
 		}
 		var jwsOut []byte
 		op("sign_jws", func() {
@@ -322,8 +341,42 @@ func c03Body(s *simkit.Sim, rc *simkit.RunCtx) {
 				s.Fail("C03.kid", name, "the %s signature requested for %s does not verify with the key published for it: %v", name, kid, err)
 				return
 			}
+			if hb, err := base64.RawURLEncoding.DecodeString(strings.SplitN(token, ".", 2)[0]); err == nil {
+				var h struct {
+					Kid *string `json:"kid"`
+				}
+				if json.Unmarshal(hb, &h) == nil && h.Kid != nil && *h.Kid != kid {
+					s.Fail("C03.kid", name+":names-another-key", "the %s signature requested for %s names key id %q in its header", name, kid, *h.Kid)
+					return
+				}
+			}
 			s.Probes.Inc("signature-verified-with-published-key")
 		}
+	}
+	// ---- imported non-EC keys: whatever is asked of them, their material stays inside ----
+	var goErrors []string
+	noteErr := func(err error) {
+		if err != nil {
+			goErrors = append(goErrors, err.Error())
+		}
+	}
+	for _, lk := range []string{"legacy-rsa", "legacy-ed25519"} {
+		op("legacy-key "+lk, func() {
+			ctx := audit.Context(context.Background(), "sim", "Sim", "op")
+			if ok, _ := b.Crypto.Exists(ctx, lk); ok {
+				s.Probes.Inc("imported-non-ec-key-in-store")
+			}
+			_, err := b.Crypto.Decrypt(ctx, lk, []byte("not a ciphertext"))
+			noteErr(err)
+			_, err = b.Crypto.SignJWT(ctx, map[string]interface{}{"a": "b"}, nil, lk)
+			noteErr(err)
+			_, err = b.Crypto.SignJWS(ctx, []byte("x"), map[string]interface{}{"typ": "x"}, lk, false)
+			noteErr(err)
+			hdr := base64.RawURLEncoding.EncodeToString([]byte(`{"alg":"ECDH-ES+A256KW","enc":"A256GCM","kid":"` + lk + `","epk":{"kty":"EC","crv":"P-256","x":"f83OJ3D2xF1Bg8vub9tLe1gHMzV76e8Tus9uPHvRVEU","y":"x_FEzRu9m36HLN_tue659LNpXW6pCyStikYjKIWI5a0"}}`))
+			b.Call("POST", "/internal/crypto/v1/decrypt_jwe", map[string]interface{}{"message": hdr + ".AAAAAAAAAAAAAAAAAAAAAAAAAAAAAAAAAAAAAAAAAAAAAAAAAAAAAA.AAAAAAAAAAAAAAAA.AAAA.AAAAAAAAAAAAAAAAAAAAAA"})
+			_, _, err = b.Crypto.DecryptJWE(ctx, hdr+".AAAAAAAAAAAAAAAAAAAAAAAAAAAAAAAAAAAAAAAAAAAAAAAAAAAAAA.AAAAAAAAAAAAAAAA.AAAA.AAAAAAAAAAAAAAAAAAAAAA")
+			noteErr(err)
+		})
 	}
 	// ---- key names that address storage outside the key store's namespace ----
 	// a real key file just outside the key store's directory: a name that reaches it must not work
@@ -491,6 +544,9 @@ func c03Body(s *simkit.Sim, rc *simkit.RunCtx) {
 			return
 		}
 	}
+	if !scan("go-error", []byte(strings.Join(goErrors, "\n"))) {
+		return
+	}
 	for _, x := range wires {
 		if !scan("p2p-envelope", x) {
 			return
@@ -571,8 +627,14 @@ func c03Body(s *simkit.Sim, rc *simkit.RunCtx) {
 	rc.Nontrivial = sample.Keys > 0 && len(sample.Ops) > 5
 }
 
-var c03RSAOnce sync.Once
-var c03RSA *rsa.PrivateKey
+var c03RSAOnce, c03LegacyOnce sync.Once
+var c03RSA, c03LegacyRSA *rsa.PrivateKey
+
+// c03LegacyRSAKey is the RSA key placed in the key store (another one than the key the workload sends as a caller).
+func c03LegacyRSAKey() *rsa.PrivateKey {
+	c03LegacyOnce.Do(func() { c03LegacyRSA, _ = rsa.GenerateKey(rand.Reader, 1024) })
+	return c03LegacyRSA
+}
 
 // c03RSAKey is one RSA key per process (generation is slow; its value does not matter).
 func c03RSAKey() *rsa.PrivateKey {
